@@ -911,4 +911,11 @@ def replay(ctx, path):
     if why:
         vlib.report_violation(ctx, {"case": c, "why": why, "observed": go[:400]})
         return 1
+    mc = m[:-2] if m.startswith("O ") else m
+    if not go.startswith("X ") and mc != go and max(b, default=0) < 128:
+        # recorded as a broken correspondence: still broken
+        vlib.report_violation(ctx, {"correspondence": "model and implementation differ on a projected observable",
+                                    "first_mismatches": [{"case": c, "model": mc[:300], "implementation": go[:300]}], "mismatch_count": 1},
+                              no_input=True)
+        return 1
     return 0
